@@ -346,9 +346,31 @@ class ScopeAnalysis:
                 if pth.endswith("from_residual") or (t[1]["f"].get("o") or "").endswith("from_residual"):
                     fl[("r",)] = "Err"
             if t[0] == "call" and t[1].get("dest"):
-                fl.pop(("l", t[1]["dest"][0]), None)
-                for k in [k for k in fl if k[0] == "f" and k[1] == t[1]["dest"][0]]:
+                dl = t[1]["dest"][0]
+                fl.pop(("l", dl), None)
+                fl.pop(("disc", dl), None)
+                for k in [k for k in fl if k[0] == "f" and k[1] == dl]:
                     fl.pop(k)
+                pth = t[1]["f"].get("p") or ""
+                args = t[1].get("args", [])
+                if len(t[1]["dest"]) == 1 and args and args[0][0] in ("C", "M") and len(args[0][1]) == 1:
+                    a0 = args[0][1][0]
+                    if pth.endswith("IntoIterator>::into_iter") or pth.endswith("IntoIterator::into_iter"):
+                        # a Range is its own iterator
+                        for k in [k for k in list(fl) if k[0] == "f" and k[1] == a0]:
+                            fl[("f", dl, k[2])] = fl[k]
+                    elif re.search(r"(range::<impl .*Iterator for .*Range<.*>>|Iterator)::next$", pth):
+                        # `for _ in 0..n` with known bounds: the loop is unrolled exactly
+                        it = self.ref_target(B, a0)
+                        s0, e0 = fl.get(("f", it, 0)), fl.get(("f", it, 1))
+                        if it is not None and s0 is not None and e0 is not None and not isinstance(s0, bool) and not isinstance(e0, bool):
+                            if s0 < e0:
+                                fl[("disc", dl)] = 1
+                                fl[("f", it, 0)] = s0 + 1 if s0 + 1 <= self.INT_BOUND else None
+                                if fl[("f", it, 0)] is None:
+                                    fl.pop(("f", it, 0))
+                            else:
+                                fl[("disc", dl)] = 0
             if t[0] == "ret":
                 if fl.get(("r",)) == "Err":
                     S.err_deltas.add(depth)
@@ -371,11 +393,28 @@ class ScopeAnalysis:
             self.push_succ(work, t, depth, mn, fl, blocks)
         return S
 
+    def ref_target(self, B, l):
+        """local a `&mut` reference local points to (single definition `l = &mut x`)"""
+        for _ in range(4):
+            defs = B.defs.get(l, [])
+            if not (len(defs) == 1 and defs[0][2] == "assign" and defs[0][3][2][0] == "Ref"):
+                return None
+            pl = defs[0][3][2][2]
+            if len(pl) == 1:
+                return pl[0]
+            if len(pl) == 2 and pl[1] == "*":
+                l = pl[0]          # reborrow `&mut *r`
+                continue
+            return None
+        return None
+
     def push_succ(self, work, t, depth, mn, fl, blocks):
         for s in mirutil.normal_successors(t):
             work.append((s, depth, mn, tuple(sorted(fl.items()))))
 
     # ------------------------------------------------------------------ flags
+    INT_BOUND = 12      # small counters only: larger values are forgotten so that the exploration stays finite
+
     def operand_flag(self, op, fl):
         if op[0] == "K":
             if len(op) > 3 and isinstance(op[3], int) and op[1] in ("const true", "const false", "true", "false"):
@@ -384,6 +423,8 @@ class ScopeAnalysis:
                 return True
             if op[1] in ("const false", "false"):
                 return False
+            if len(op) > 3 and isinstance(op[3], int) and not isinstance(op[3], bool) and re.match(r"^(const )?-?\d+_(u|i)(size|8|16|32|64)$", str(op[1])) and abs(op[3]) <= self.INT_BOUND:
+                return int(op[3])
             return None
         if op[0] in ("C", "M"):
             pl = op[1]
@@ -423,6 +464,36 @@ class ScopeAnalysis:
                 b2 = self.operand_flag(rv[3], fl)
                 if a is not None and b2 is not None:
                     fl[key] = {"BitAnd": a and b2, "BitOr": a or b2, "Eq": a == b2, "Ne": a != b2}[rv[1]]
+            elif rv[0] == "Bin" and rv[1] in ("Lt", "Le", "Gt", "Ge"):
+                a = self.operand_flag(rv[2], fl)
+                b2 = self.operand_flag(rv[3], fl)
+                if a is not None and b2 is not None and not isinstance(a, bool) and not isinstance(b2, bool):
+                    fl[key] = {"Lt": a < b2, "Le": a <= b2, "Gt": a > b2, "Ge": a >= b2}[rv[1]]
+            elif rv[0] == "Bin" and rv[1] in ("Add", "Sub", "AddWithOverflow", "SubWithOverflow", "AddUnchecked", "SubUnchecked"):
+                a = self.operand_flag(rv[2], fl)
+                b2 = self.operand_flag(rv[3], fl)
+                if a is not None and b2 is not None and not isinstance(a, bool) and not isinstance(b2, bool):
+                    r = a + b2 if rv[1].startswith("Add") else a - b2
+                    if 0 <= r <= self.INT_BOUND:
+                        if rv[1].endswith("WithOverflow"):
+                            fl[("f", dst[0], 0)] = r
+                            fl[("f", dst[0], 1)] = False
+                        else:
+                            fl[key] = r
+            elif rv[0] == "Agg" and isinstance(rv[1], list) and rv[1][0] == "adt" and rv[1][1] == "core::ops::range::Range" and len(rv[2]) == 2:
+                for i, op in enumerate(rv[2]):
+                    v = self.operand_flag(op, fl)
+                    if v is not None and not isinstance(v, bool):
+                        fl[("f", dst[0], i)] = v
+            elif rv[0] == "Disc" and len(rv[1]) == 1:
+                v = fl.get(("disc", rv[1][0]))
+                if v is not None:
+                    fl[key] = v
+            if rv[0] == "Use" and rv[1][0] in ("C", "M") and len(rv[1][1]) == 1:
+                # whole-value copy / move: what is known about the fields travels along
+                src = rv[1][1][0]
+                for k in [k for k in list(fl) if k[0] == "f" and k[1] == src]:
+                    fl[("f", dst[0], k[2])] = fl[k]
         elif len(dst) == 2 and isinstance(dst[1], list) and dst[1][0] == ".":
             key = ("f", dst[0], dst[1][1])
             fl.pop(key, None)
